@@ -255,4 +255,216 @@ Section RingV.
       symmetry in E. apply mod_inj_window in E; [|lia|unfold i; lia]. unfold i in E. lia.
     - apply write_bytes_read.
   Qed.
+  (** ** list facts *)
+  Lemma skipn_cons_nth {A} (l : list A) : forall n x r,
+    skipn n l = x :: r -> nth_error l n = Some x /\ skipn (S n) l = r /\ (S n <= List.length l)%nat.
+  Proof.
+    induction l as [|y l IH]; intros n x r H.
+    - destruct n; discriminate.
+    - destruct n as [|n]; cbn in H.
+      + inversion H; subst. cbn. repeat split; auto. lia.
+      + destruct (IH _ _ _ H) as (A1 & A2 & A3). cbn [nth_error List.length]. repeat split; auto. lia.
+  Qed.
+
+  Lemma skipn_nil_len {A} (l : list A) : forall n, skipn n l = [] -> (List.length l <= n)%nat.
+  Proof.
+    induction l as [|y l IH]; intros n H; cbn; [lia|].
+    destruct n as [|n]; [discriminate|]. cbn in H. specialize (IH _ H). lia.
+  Qed.
+
+  Lemma skipn_snoc {A} (l l' : list A) n : (n <= List.length l)%nat -> skipn n (l ++ l') = skipn n l ++ l'.
+  Proof.
+    intros H. rewrite skipn_app. replace (n - List.length l)%nat with 0%nat by lia. reflexivity.
+  Qed.
+
+  (** ** dependence on the state *)
+  Lemma seg_ok_mem g g' p s : v_mem g' = v_mem g -> seg_ok g p s -> seg_ok g' p s.
+  Proof. intros E. apply seg_ok_frame. intros i _. rewrite E. reflexivity. Qed.
+
+  Lemma lay_mem g g' l : forall p, v_mem g' = v_mem g -> lay g p l -> lay g' p l.
+  Proof.
+    induction l as [|s r IH]; intros p E H; cbn [lay] in *; [exact Logic.I|].
+    destruct H as (Hs & Hr). split; [eapply seg_ok_mem; eauto|apply IH; auto].
+  Qed.
+
+  Lemma read64_mem g g' off : v_mem g' = v_mem g -> read64 g' off = read64 g off.
+  Proof. intros E. unfold read64. f_equal. apply read_bytes_agree. intros i _. rewrite E. reflexivity. Qed.
+
+  Lemma pph_mem g g' l : v_mem g' = v_mem g -> v_back g' = v_back g -> pph_ok g l -> pph_ok g' l.
+  Proof.
+    intros E B. unfold pph_ok. rewrite B. destruct (lv_ph l); auto.
+    - rewrite (read64_mem g g') by exact E. auto.
+    - rewrite (read64_mem g g') by exact E. auto.
+    - intros (H1 & H2). split; [eapply seg_ok_mem; eauto|exact H2].
+  Qed.
+
+  (** ** histories *)
+  Lemma Inv_neutral g a tr t e :
+    Inv g a tr -> vpush_rec e = [] -> vpop_cnt e = 0%nat -> Phi tr t e -> Inv g a (tr ++ [(t, e)]).
+  Proof.
+    intros I E1 E2 HP. destruct I.
+    constructor; rewrite ?vpushed_snoc, ?npopped_snoc, ?E1, ?E2, ?app_nil_r, ?Nat.add_0_r; auto.
+    apply hist_ok_snoc; assumption.
+  Qed.
+
+  Lemma Inv_acc g a tr t k o ok : Inv g a tr -> Inv g a (tr ++ [(t, EvAcc k o ok)]).
+  Proof. intros I. apply Inv_neutral; auto. exact Logic.I. Qed.
+
+  Lemma Phi_trivial tr t name args :
+    name <> "vfront_ok"%string -> name <> "vfront_null"%string -> name <> "vpop_fail"%string ->
+    Phi tr t (EvCli name args).
+  Proof. intros. cbn. repeat split; intros; congruence. Qed.
+
+  (** ** producer steps *)
+
+  (** the producer changes its view and possibly writes free bytes / logs a failure *)
+  Lemma Inv_p_write g g' a tr l' :
+    Inv g a tr ->
+    v_front g' = v_front g -> v_back g' = v_back g -> v_wbad g' = false ->
+    (forall f b size, In (f, b, size) (v_fails g') -> fail_cond f b size) ->
+    (forall x, v_front g <= x < v_back g -> v_mem g' (x mod cap) = v_mem g (x mod cap)) ->
+    lv_mine l' = v_back g -> lv_loc (pv a) <= lv_loc l' <= v_front g ->
+    0 <= lv_rem l' <= lv_rem (pv a) -> pph_ok g' l' ->
+    Inv g' (mkA (segs a) l' (cv a)) tr.
+  Proof.
+    intros I F B W FL AG M LOC REM PP. destruct I.
+    constructor; cbn [segs pv cv]; rewrite ?F, ?B; auto; try lia.
+    - eapply lay_frame; [exact AG| |rewrite j_len0; apply Z.le_refl|exact j_lay0]. lia.
+    - unfold cph_ok in *. rewrite F. exact j_cph0.
+  Qed.
+
+  (** D: back_.store( back + tail ) publishes the tail marker *)
+  Lemma Inv_p_pubtail g a tr pf b R size :
+    Inv g a tr -> pv a = mkL pf b R (PTailS size) ->
+    let tail := cap - b mod cap in
+    Inv (setv_back g (b + tail)) (mkA (segs a ++ [STail tail]) (mkL pf (b + tail) (R - tail) PIdle) (cv a)) tr.
+  Proof.
+    intros I Hpv tail. destruct I. rewrite Hpv in *. cbn [lv_loc lv_mine lv_rem lv_ph] in *.
+    unfold pph_ok in j_pph0. cbn [lv_loc lv_mine lv_rem lv_ph] in j_pph0. subst b.
+    destruct j_pph0 as (S1 & S2 & S3 & S4 & S5 & S6 & S7). fold tail in S4, S5, S6, S7.
+    pose proof cap_pos as Hc. pose proof (Z.mod_pos_bound (v_back g) cap ltac:(lia)) as Mb.
+    assert (Ht8 : tail mod 8 = 0).
+    { unfold tail. rewrite Zminus_mod, cap8, off_mod8 by exact j_align0. reflexivity. }
+    destruct (segs_len_nonneg _ _ _ j_lay0) as (N1 & _ & _).
+    constructor; cbn [segs pv cv lv_loc lv_mine lv_rem lv_ph setv_back v_front v_back v_mem v_fails v_wbad]; auto; try lia.
+    - rewrite Z.add_mod, j_align0, Ht8 by lia. reflexivity.
+    - rewrite segs_len_app. cbn [segs_len seg_len]. lia.
+    - apply lay_app. split; [eapply lay_mem; [|exact j_lay0]; reflexivity|].
+      cbn [lay]. split; [|exact Logic.I]. rewrite j_len0. cbn [seg_ok].
+      repeat split; try lia. rewrite (read64_mem g) by reflexivity. exact S6.
+    - destruct j_cb0 as (l1 & l2 & E1 & E2). exists l1, (l2 ++ [STail tail]). rewrite E1, app_assoc. auto.
+    - rewrite recs_of_app. cbn [recs_of]. rewrite app_nil_r. exact j_recs0.
+    - unfold pph_ok. cbn. exact Logic.I.
+    - unfold cph_ok in *. cbn [v_front setv_back]. destruct (lv_ph (cv a)); auto.
+      + destruct j_cph0 as (C1 & seed & rest & C2). split; [exact C1|]. rewrite C2. cbn [app]. eauto.
+      + destruct j_cph0 as (C1 & rest & C2). split; [exact C1|]. rewrite C2. cbn [app]. eauto.
+  Qed.
+
+  (** F: back_.store( back + real_size ) publishes the record, with its "vpush_ok" event *)
+  Lemma Inv_p_push g a tr pf b R size seed :
+    Inv g a tr -> pv a = mkL pf b R (PRec size seed) ->
+    Inv (setv_back g (b + rsz size)) (mkA (segs a ++ [SRec size seed]) (mkL pf (b + rsz size) (R - rsz size) PIdle) (cv a))
+        (tr ++ [(0%nat, EvCli "vpush_ok" [size; seed])]).
+  Proof.
+    intros I Hpv. destruct I. rewrite Hpv in *. cbn [lv_loc lv_mine lv_rem lv_ph] in *.
+    unfold pph_ok in j_pph0. cbn [lv_loc lv_mine lv_rem lv_ph] in j_pph0. subst b.
+    destruct j_pph0 as (S1 & S2 & S3).
+    destruct (seg_len_pos _ _ _ S1) as (L1 & L2 & L3). cbn [seg_len] in *.
+    destruct (segs_len_nonneg _ _ _ j_lay0) as (N1 & _ & _).
+    constructor; cbn [segs pv cv lv_loc lv_mine lv_rem lv_ph setv_back v_front v_back v_mem v_fails v_wbad];
+      rewrite ?vpushed_snoc, ?npopped_snoc; cbn [vpush_rec vpop_cnt String.eqb Ascii.eqb Bool.eqb];
+      rewrite ?Nat.add_0_r; auto; try lia.
+    - rewrite Z.add_mod, j_align0, L2 by lia. reflexivity.
+    - rewrite segs_len_app. cbn [segs_len seg_len]. lia.
+    - apply lay_app. split; [eapply lay_mem; [|exact j_lay0]; reflexivity|].
+      cbn [lay]. split; [|exact Logic.I]. rewrite j_len0. eapply seg_ok_mem; [|exact S1]. reflexivity.
+    - destruct j_cb0 as (l1 & l2 & E1 & E2). exists l1, (l2 ++ [SRec size seed]). rewrite E1, app_assoc. auto.
+    - destruct j_recs0 as (R1 & R2). rewrite recs_of_app. cbn [recs_of]. rewrite R1. split.
+      + symmetry. apply skipn_snoc. exact R2.
+      + rewrite app_length. lia.
+    - unfold pph_ok. cbn. exact Logic.I.
+    - unfold cph_ok in *. cbn [v_front setv_back]. destruct (lv_ph (cv a)); auto.
+      + destruct j_cph0 as (C1 & seed' & rest & C2). split; [exact C1|]. rewrite C2. cbn [app]. eauto.
+      + destruct j_cph0 as (C1 & rest & C2). split; [exact C1|]. rewrite C2. cbn [app]. eauto.
+    - apply hist_ok_snoc; [assumption|]. apply Phi_trivial; discriminate.
+  Qed.
+
+  (** ** consumer steps *)
+
+  (** the consumer changes its phase, or reloads cback_ = back_ *)
+  Lemma Inv_c_view g a tr l' :
+    Inv g a tr -> lv_mine l' = v_front g ->
+    (lv_loc l' = lv_loc (cv a) \/ lv_loc l' = v_back g) ->
+    cph_ok g (segs a) l' -> Inv g (mkA (segs a) (pv a) l') tr.
+  Proof.
+    intros I M LOC CP. destruct I.
+    constructor; cbn [segs pv cv]; auto; try (destruct LOC as [->| ->]; lia).
+    destruct LOC as [->| ->]; [exact j_cb0|]. exists (segs a), []. rewrite app_nil_r. auto.
+  Qed.
+
+  Lemma head_boundary g a tr s rest :
+    Inv g a tr -> segs a = s :: rest -> v_front g + 8 <= lv_loc (cv a) ->
+    v_front g + seg_len s <= lv_loc (cv a) /\
+    exists l1 l2, rest = l1 ++ l2 /\ v_front g + seg_len s + segs_len l1 = lv_loc (cv a).
+  Proof.
+    intros I Hs H8. destruct I. destruct j_cb0 as (l1 & l2 & E1 & E2).
+    destruct l1 as [|s' l1']; [cbn in E2; lia|].
+    rewrite Hs in E1. cbn in E1. inversion E1; subst s' rest.
+    rewrite Hs in j_lay0. cbn [lay] in j_lay0. destruct j_lay0 as (_ & Hr).
+    apply lay_app in Hr. destruct Hr as (Hr1 & _).
+    destruct (segs_len_nonneg _ _ _ Hr1) as (N1 & _ & _). cbn [segs_len] in E2.
+    split; [lia|]. exists l1', l2. split; [reflexivity|lia].
+  Qed.
+
+  (** D of pop_front() on a record, with its "vpop_ok" event *)
+  Lemma Inv_c_pop_rec g a tr cb f r size :
+    Inv g a tr -> cv a = mkL cb f r (CRec size) ->
+    exists seed rest, segs a = SRec size seed :: rest /\
+    Inv (setv_front g (f + rsz size)) (mkA rest (pv a) (mkL cb (f + rsz size) r PIdle))
+        (tr ++ [(1%nat, EvCli "vpop_ok" [])]).
+  Proof.
+    intros I Hcv. pose proof I as I'. destruct I'. rewrite Hcv in *. cbn [lv_loc lv_mine lv_rem lv_ph] in *.
+    unfold cph_ok in j_cph0. cbn [lv_loc lv_ph] in j_cph0. destruct j_cph0 as (C1 & seed & rest & C2).
+    exists seed, rest. split; [exact C2|]. subst f.
+    destruct (head_boundary g a tr _ _ I C2) as (B1 & l1 & l2 & B2 & B3); [rewrite Hcv; exact C1|].
+    rewrite Hcv in B1, B3. cbn [lv_loc seg_len] in B1, B3.
+    rewrite C2 in *. cbn [lay segs_len seg_len recs_of] in *. destruct j_lay0 as (Hs & Hr).
+    destruct (seg_len_pos _ _ _ Hs) as (L1 & L2 & L3). cbn [seg_len] in *.
+    destruct j_recs0 as (R1 & R2). symmetry in R1. destruct (skipn_cons_nth _ _ _ _ R1) as (K1 & K2 & K3).
+    constructor; cbn [segs pv cv lv_loc lv_mine lv_rem lv_ph setv_front v_front v_back v_mem v_fails v_wbad];
+      rewrite ?vpushed_snoc, ?npopped_snoc; cbn [vpush_rec vpop_cnt String.eqb Ascii.eqb Bool.eqb];
+      rewrite ?app_nil_r; auto; try lia.
+    - eapply lay_mem; [|exact Hr]. reflexivity.
+    - exists l1, l2. auto.
+    - replace (npopped tr + 1)%nat with (S (npopped tr)) by lia. split; [symmetry; exact K2|exact K3].
+    - eapply pph_mem; [| |exact j_pph0]; reflexivity.
+    - unfold cph_ok. cbn. exact Logic.I.
+    - apply hist_ok_snoc; [assumption|]. apply Phi_trivial; discriminate.
+  Qed.
+
+  (** D of the pop_front() inside front() on a tail marker: no client event *)
+  Lemma Inv_c_pop_tail g a tr cb f r t :
+    Inv g a tr -> cv a = mkL cb f r (CTail t) ->
+    exists rest, segs a = STail t :: rest /\
+    Inv (setv_front g (f + t)) (mkA rest (pv a) (mkL cb (f + t) r CZero)) tr.
+  Proof.
+    intros I Hcv. pose proof I as I'. destruct I'. rewrite Hcv in *. cbn [lv_loc lv_mine lv_rem lv_ph] in *.
+    unfold cph_ok in j_cph0. cbn [lv_loc lv_ph] in j_cph0. destruct j_cph0 as (C1 & rest & C2).
+    exists rest. split; [exact C2|]. subst f.
+    destruct (head_boundary g a tr _ _ I C2) as (B1 & l1 & l2 & B2 & B3); [rewrite Hcv; exact C1|].
+    rewrite Hcv in B1, B3. cbn [lv_loc seg_len] in B1, B3.
+    rewrite C2 in *. cbn [lay segs_len seg_len recs_of] in *. destruct j_lay0 as (Hs & Hr).
+    destruct (seg_len_pos _ _ _ Hs) as (L1 & L2 & L3). cbn [seg_len seg_ok] in *.
+    destruct Hs as (T1 & T2 & T3 & T4 & T5). pose proof cap_pos as Hc.
+    constructor; cbn [segs pv cv lv_loc lv_mine lv_rem lv_ph setv_front v_front v_back v_mem v_fails v_wbad];
+      auto; try lia.
+    - eapply lay_mem; [|exact Hr]. reflexivity.
+    - exists l1, l2. auto.
+    - eapply pph_mem; [| |exact j_pph0]; reflexivity.
+    - unfold cph_ok. cbn [lv_ph v_front].
+      rewrite (Z.div_mod (v_front g) cap) at 1 by lia.
+      replace (cap * (v_front g / cap) + v_front g mod cap + t) with ((v_front g / cap + 1) * cap) by lia.
+      apply Z_mod_mult.
+  Qed.
+
 End RingV.
